@@ -30,6 +30,8 @@ function lnext(t,k) return next(t,k) end
 function lipairs(t) local n=0 for i,v in ipairs(t) do n=i end return n end
 function lpop(t) local n=#t t[n]=nil return n end
 function lpush(t,v) local n=#t t[n+1]=v return n end
+function lremove(t,p) return table.remove(t,p) end
+function lipairs2(t) local r, n = {}, 0 for i,v in ipairs(t) do r[n+1]=i r[n+2]=v n=n+2 end return r, n end
 `
 
 func newTblWorld() *tblWorld {
@@ -38,7 +40,7 @@ func newTblWorld() *tblWorld {
 		panic(err)
 	}
 	w := &tblWorld{L: L, tbls: map[int]*lua.LTable{}, refs: map[int]lua.LValue{}, rt: NewRefTable(), fns: map[string]*lua.LFunction{}, subs: map[int]ctorSpec{}}
-	for _, n := range []string{"lset", "lget", "llen", "lnext", "lipairs", "lpop", "lpush"} {
+	for _, n := range []string{"lset", "lget", "llen", "lnext", "lipairs", "lpop", "lpush", "lremove", "lipairs2"} {
 		w.fns[n] = L.GetGlobal(n).(*lua.LFunction)
 	}
 	return w
@@ -110,6 +112,29 @@ func execTable(ops []Op) []string {
 		name := a[0]
 		id, _ := strconv.Atoi(a[1])
 		tb := w.tbls[id]
+		if name == "numkey" {
+			// key normalisation: a[1] = float64 bit pattern (decimal).  Observed through the public API only: the
+			// Lua-level store raises for NaN; on a fresh table RawSet(v) followed by RawGetH(v) tells whether the key was
+			// routed to the hash part (isArrayKey is unexported); the canonical token is the harness's encNum
+			bits, _ := strconv.ParseUint(a[1], 10, 64)
+			v := lua.LNumber(math.Float64frombits(bits))
+			ft := w.L.NewTable()
+			_, ok := w.lcall("lset", 0, ft, v, lua.LTrue)
+			reply := ""
+			switch {
+			case !ok:
+				reply = "nan"
+			case ft.RawGet(v) != lua.LTrue:
+				out = append(out, "X numkey-store-not-readable => "+a[1])
+				continue
+			case ft.RawGetH(v) == lua.LTrue:
+				reply = "hash " + encNum(float64(v))
+			default:
+				reply = "arr " + encNum(float64(v))
+			}
+			emit([]string{"numkey", a[1], strconv.Itoa(lua.MaxArrayIndex)}, reply)
+			continue
+		}
 		if tb == nil && name != "new" && name != "ctor" && name != "sub" {
 			continue // (a shrunk case may have lost the op that creates the table)
 		}
@@ -239,13 +264,45 @@ func execTable(ops []Op) []string {
 				}
 			}
 			emit([]string{"geti", a[1], "i" + strconv.Itoa(n+1)}, "nil")
+			// … and the pairs the generic `for` delivers, in order (Model: ipairsRun over ipairsaux / RawGetInt)
+			if res, ok := w.lcall("lipairs2", 2, tb); ok {
+				rt := res[0].(*lua.LTable)
+				cnt := int(res[1].(lua.LNumber))
+				toks := []string{strconv.Itoa(cnt / 2)}
+				for i := 1; i <= cnt; i++ {
+					toks = append(toks, w.enc(rt.RawGetInt(i)))
+				}
+				emit([]string{"ipairs", a[1]}, strings.Join(toks, " "))
+			} else {
+				out = append(out, "X ipairs-raised => "+a[1])
+			}
+		case "travmod": // traversal under modification through every traversal entry point (c09_travmod.go)
+			out = append(out, w.execTravMod(a[1], tb, a[2], parseTravModPlan(a[3:]))...)
+		case "trbegin": // scripted chains (corpus): the Spec session of a traversal starts here …
+			emit(a, "")
+		case "next": // … and every `next <key>` is one call of LTable.Next with that key
+			k, v := tb.Next(w.dec(a[2]))
+			emit(a, w.enc(k)+" "+w.enc(v))
 		case "trav":
 			// full traversal from nil with interleaved clear/overwrite of existing fields;
-			// a[2] = seed, a[3] = mode (go: tb.Next, lua: next(t,k), api: L.Next), a[4] = modification percentage
+			// a[2] = seed, a[3] = mode (go: tb.Next, lua: next(t,k), api: L.Next), a[4] = modification percentage,
+			// a[5] (optional) = percentage of steps followed by a Remove / table.remove (which only clears or shifts
+			// existing fields but shrinks the array part), a[6] (optional) = 1: the stores may also re-insert a field
+			// that was present when the traversal began and has been cleared since (its slot still exists)
 			seed, _ := strconv.Atoi(a[2])
 			pct, _ := strconv.Atoi(a[4])
+			rmPct, reins := 0, false
+			if len(a) > 5 {
+				rmPct, _ = strconv.Atoi(a[5])
+			}
+			if len(a) > 6 {
+				reins = a[6] == "1"
+			}
 			r := NewRng(uint64(seed))
 			emit([]string{"trbegin", a[1]}, "")
+			var atBegin []lua.LValue
+			tb.ForEach(func(k2, _ lua.LValue) { atBegin = append(atBegin, k2) })
+			sort.Slice(atBegin, func(i, j int) bool { return w.enc(atBegin[i]) < w.enc(atBegin[j]) })
 			var key lua.LValue = lua.LNil
 			var seen []lua.LValue
 			entries := 0
@@ -287,6 +344,11 @@ func execTable(ops []Op) []string {
 						if r.Bool() {
 							nv = lua.LNumber(1000 + r.Intn(1000))
 						}
+						if reins && r.Bool() {
+							// any key that had a field when the traversal began (possibly cleared since): re-insertion
+							tk = atBegin[r.Intn(len(atBegin))]
+							nv = lua.LNumber(2000 + r.Intn(1000))
+						}
 						if a[3] == "go" {
 							tb.RawSet(tk, nv)
 							emit([]string{"set", a[1], w.enc(tk), w.enc(nv)}, "")
@@ -298,6 +360,22 @@ func execTable(ops []Op) []string {
 							}
 							emit([]string{"lset", a[1], w.enc(tk), w.enc(nv)}, rr)
 						}
+					}
+				}
+				if rmPct > 0 && r.Chance(rmPct) {
+					// a list helper in the middle of the traversal: pop (#t), front, a middle position, out of range
+					n := tb.Len()
+					pos := Pick(r, []int{n, n, n, 1, r.Range(1, n+1), n + 1, 0, -1})
+					ps := "i" + strconv.Itoa(pos)
+					if a[3] == "lua" {
+						res, ok := w.lcall("lremove", 1, tb, lua.LNumber(pos))
+						if !ok {
+							out = append(out, "X table.remove-raised => "+ps)
+							return out
+						}
+						emit([]string{"remove", a[1], ps}, w.enc(res[0]))
+					} else {
+						emit([]string{"remove", a[1], ps}, w.enc(tb.Remove(pos)))
 					}
 				}
 			}
@@ -466,8 +544,14 @@ func genTableHistory(r *Rng, maxOps int, mai int, ntab int, alen []int, base int
 		case c < 91:
 			add("ipairs", ts)
 		default:
+			if r.Chance(35) { // every traversal entry point, the visitor clearing / overwriting existing fields
+				add("travmod", ts, Pick(r, travModEntries), "rnd", strconv.Itoa(r.Intn(1<<30)), Pick(r, []string{"0", "40", "100"}))
+				break
+			}
 			pct := Pick(r, []int{0, 0, 30, 60})
-			add("trav", ts, strconv.Itoa(r.Intn(1<<30)), Pick(r, []string{"go", "lua", "api"}), strconv.Itoa(pct))
+			rm := Pick(r, []int{0, 0, 0, 25})
+			reins := Pick(r, []string{"0", "0", "1"})
+			add("trav", ts, strconv.Itoa(r.Intn(1<<30)), Pick(r, []string{"go", "lua", "api"}), strconv.Itoa(pct), strconv.Itoa(rm), reins)
 		}
 	}
 	// always end with a full observation
@@ -478,6 +562,58 @@ func genTableHistory(r *Rng, maxOps int, mai int, ntab int, alen []int, base int
 		add("trav", ts, "1", "go", "0")
 	}
 	return ops
+}
+
+// genNumKeyCases: bit patterns around every boundary of the key classifier (±0, 1, fractions next to integers, 2^52,
+// 2^53, ±2^63, MaxArrayIndex-1/+0/+1, subnormals, ±Inf, quiet/signalling/negative NaNs) + random ones of four shapes.
+func genNumKeyCases(root *Rng, n int, mai int) []Case {
+	f := math.Float64bits
+	special := []uint64{0, 1 << 63, f(1), f(-1), f(0.5), f(1.5), f(2), f(3), f(-0.5), f(4503599627370496), f(4503599627370497),
+		f(4503599627370495.5), f(9007199254740992), f(9007199254740994), f(4611686018427387904), f(9223372036854775808), f(-9223372036854775808),
+		f(9223372036854774784), f(-9223372036854777856), f(18446744073709551616), f(1e300), f(-1e300), 1, 0x000FFFFFFFFFFFFF, 0x0010000000000000,
+		0x7FF0000000000000, 0xFFF0000000000000, 0x7FF8000000000000, 0x7FF0000000000001, 0xFFF8000000000000, 0x7FFFFFFFFFFFFFFF,
+		f(float64(mai - 1)), f(float64(mai)), f(float64(mai + 1)), f(float64(mai) - 0.5), f(float64(mai-1) - 0.25), f(math.Nextafter(float64(mai), 0)),
+		f(math.Nextafter(1, 2)), f(math.Nextafter(1, 0)), f(math.Nextafter(0, 1)), f(67108863), f(67108864), f(67108865)}
+	var cases []Case
+	var ops []Op
+	flush := func(idx int) {
+		if len(ops) > 0 {
+			cases = append(cases, Case{Idx: idx, Ops: ops, Note: "numkey"})
+			ops = nil
+		}
+	}
+	for i, b := range special {
+		ops = append(ops, Op{Args: []string{"numkey", strconv.FormatUint(b, 10)}})
+		if len(ops) == 16 {
+			flush(6000000 + i)
+		}
+	}
+	flush(6000999)
+	for i := 0; i < n; i++ {
+		r := root.Fork(uint64(6100000 + i))
+		for j := 0; j < 16; j++ {
+			var b uint64
+			switch r.Intn(5) {
+			case 0:
+				b = r.U64()
+			case 1:
+				b = f(float64(r.Range(-10, mai+10)))
+			case 2:
+				b = f(float64(r.Range(-10, mai+10)) + Pick(r, []float64{0.5, 0.25, -0.125, 1e-9}))
+			case 3: // exponent around the integral/non-integral boundary, low fraction bits cleared
+				e := uint64(1023 + r.Range(-3, 66))
+				fr := r.U64() & (1<<52 - 1)
+				fr &^= (uint64(1) << uint(r.Range(0, 52))) - 1
+				b = uint64(r.Intn(2))<<63 | e<<52 | fr
+			default: // a neighbour of an integral double
+				x := float64(r.Range(0, 1<<20)) * math.Pow(2, float64(r.Range(0, 44)))
+				b = f(math.Nextafter(x, Pick(r, []float64{math.Inf(1), math.Inf(-1), x})))
+			}
+			ops = append(ops, Op{Args: []string{"numkey", strconv.FormatUint(b, 10)}})
+		}
+		flush(6100000 + i)
+	}
+	return cases
 }
 
 func skeletonOf(ops []Op) string {
@@ -500,9 +636,9 @@ func runC09(run *Run) {
 	if run.Tier == "thorough" {
 		nCases, maxOps = 60000, 120
 	}
-	run.Rule = "random table histories (state-aware keys: array window, 0, negatives, >=MaxArrayIndex, 2^53, fractions, strings incl. \"1\", booleans, tables; Go API + Lua-level ops; traversals with interleaved clear/overwrite) executed on the real LTable and replayed on the Lean Model (exact) and Spec (finite map, border, traversal completeness); + tables built by table constructors executed as Lua source on the real VM (bounded-exhaustive: explicit integer keys x number of positional items x trailing call/vararg, small sizes and the SETLIST batch boundary; random: every key class, nested, invalid keys), read back key by key / # / pairs / ForEach against the stores the manual says the constructor is equivalent to + exhaustive array-part sweeps (every length 1..80: shrink from the end by every k, tail run of nils of every length in one step, holes from every middle position, growth) with the border law checked after every step; distinct = distinct op-kind/key-class skeletons with >= 1 store and >= 1 observation"
+	run.Rule = "random table histories (state-aware keys: array window, 0, negatives, >=MaxArrayIndex, 2^53, fractions, strings incl. \"1\", booleans, tables; Go API + Lua-level ops; traversals with interleaved clear/overwrite/re-insertion of cleared fields and Remove/table.remove; every traversal entry point — Next chains via Go/API/Lua, pairs, ipairs, LTable.ForEach, LState.ForEach — with a visitor that clears/overwrites an already visited / the current / a not yet visited existing field: bounded-exhaustive over small tables with fields in array part, strdict and dict, and seeded multi-store schedules) executed on the real LTable and replayed on the Lean Model (exact) and Spec (finite map, border, traversal completeness); + tables built by table constructors executed as Lua source on the real VM (bounded-exhaustive: explicit integer keys x number of positional items x trailing call/vararg, small sizes and the SETLIST batch boundary; random: every key class, nested, invalid keys), read back key by key / # / pairs / ForEach against the stores the manual says the constructor is equivalent to + exhaustive array-part sweeps (every length 1..80: shrink from the end by every k, tail run of nils of every length in one step, holes from every middle position, growth) with the border law checked after every step; distinct = distinct op-kind/key-class skeletons with >= 1 store and >= 1 observation"
 	run.Assume = []string{"Go map semantics (lookup/insert/delete by ==; iteration order unspecified) — maps are modelled as association lists and ForEach's hash part is compared as a set",
-		"number keys are canonicalised by the harness (integral float64 → its integer; -0.0 → 0) before they reach the model",
+		"number keys are canonicalised by the harness (integral float64 → its integer; -0.0 → 0) before they reach the model; the canonicalisation itself (encNum) and the array/hash routing are compared with the Model's numKey / goIsArrayKey on float64 bit patterns (numkey pass)",
 		"the array part is not driven to MaxArrayIndex-1 elements (1 GiB) in the default configuration; the boundary is exercised with the exported tunable lowered",
 		"the meaning of a table constructor (manual 2.5.7: positional items numbered from 1, a trailing call/vararg contributes all its values, name = e is [\"name\"] = e) is computed by the harness and replayed on Model and Spec as the equivalent stores; only constructors that store no key twice are generated"}
 	root := NewRng(uint64(run.Seed))
@@ -552,6 +688,28 @@ func runC09(run *Run) {
 		churnN = 300
 	}
 	runCases(run, interleave(genHashChurnSweeps(churnN), 8), execTable, classifyNone)
+	// traversal-under-modification sweep (c09_travmod.go): bounded-exhaustive over small tables with fields in every part x
+	// every traversal entry point (Next chains through Go / API / Lua, pairs, ipairs, LTable.ForEach, LState.ForEach) x the
+	// visit at which the visitor stores x target class (already visited / current / not yet visited) x clear / overwrite
+	{
+		nrnd := 4
+		if run.Tier == "thorough" {
+			nrnd = 60
+		}
+		runCases(run, interleave(genTravModSweep(root, nrnd), 16), execTable, classifyNone)
+	}
+	// key-normalisation pass: float64 bit patterns → canonical key and array/hash routing (Model: numKey, goIsArrayKey);
+	// MaxArrayIndex lowered so that a key routed to the array part costs at most a 4096-element array
+	{
+		savedMai := lua.MaxArrayIndex
+		lua.MaxArrayIndex = 4096
+		nk := 250
+		if run.Tier == "thorough" {
+			nk = 6000
+		}
+		runCases(run, genNumKeyCases(root, nk, 4096), execTable, classifyNone)
+		lua.MaxArrayIndex = savedMai
+	}
 	// last pass: the exported tunable MaxArrayIndex lowered so that the array/hash routing boundary is
 	// reachable without a 1 GiB array (the Model takes MaxArrayIndex as a parameter of every table)
 	saved := lua.MaxArrayIndex
